@@ -90,6 +90,8 @@ def gen_cases(rng, tier):
     order = list(range(len(views)))
     rng.shuffle(order)
     cases.append({"kind": "views", "model": m, "views": views, "ops": ops, "create_order": order, "lazy": rng.random() < 0.5})
+  if tier in ["thorough"]:
+    cases.append({"kind": "suite"})   # the repository's own tests with this check's contracts armed
   return cases
 
 
@@ -272,6 +274,10 @@ def run_views(case, ctx):
 
 
 def run_case(case, ctx):
+  if case.get("kind") == "suite":
+    import suite_contracts
+    ctx.cls("kind:suite_with_contracts")
+    return suite_contracts.run_suite(ctx, 'c13', ['view_properties'])
   ctx.cls("kind:" + case["kind"])
   if case["kind"] == "diff":
     return run_diff(case, ctx)
